@@ -458,3 +458,52 @@ func LineEndsAgree(r *oblig.Report, rule string, lg *g4.Grammar, pp *PrePass) {
 		}
 	}
 }
+
+// TrimCoversBlanks (R9.1t): the grammar has no place for a WHITESPACE token in front of EOF, so a blank that is left at
+// the end of the last line makes the parser reject the document. Every blank of the lexer that is not itself a line
+// end (space, tab), and the carriage return of CRLF files, belongs to the set the pre-pass trims from the end of each
+// line.
+func TrimCoversBlanks(r *oblig.Report, rule string, lg *g4.Grammar, pp *PrePass) {
+	if lg == nil || pp == nil {
+		r.Unknown(rule, "trim-covers:anchor", "-", "lexer grammar or pre-pass not available")
+		return
+	}
+	lits := func(name string) map[rune]bool {
+		out := map[rune]bool{}
+		if rl := lg.ByName[name]; rl != nil {
+			g4.Walk(rl.Body, func(n g4.Node) {
+				if l, ok := n.(*g4.Lit); ok {
+					for _, c := range l.S {
+						out[c] = true
+					}
+				}
+			})
+		}
+		return out
+	}
+	trimSet := strings.Join(pp.TrimCutSets, "")
+	ws, nl := lits("WHITESPACE"), lits("NEWLINE")
+	want := map[rune]bool{'\r': true}
+	for c := range ws {
+		if !nl[c] {
+			want[c] = true
+		}
+	}
+	var cs []string
+	for c := range want {
+		cs = append(cs, string(c))
+	}
+	sort.Strings(cs)
+	if len(ws) == 0 {
+		r.Unknown(rule, "trim-covers:anchor", "OpenFGALexer.g4", "lexer rule WHITESPACE has no literal")
+		return
+	}
+	for _, c := range cs {
+		construct := fmt.Sprintf("trim-covers:%q", c)
+		if strings.Contains(trimSet, c) {
+			r.OK(rule, construct, "OpenFGALexer.g4", "cut-set", fmt.Sprintf("trimmed from the end of every line (guaranteed cut set %q)", trimSet))
+		} else {
+			r.Bad(rule, construct, "OpenFGALexer.g4", fmt.Sprintf("%q is a blank of the lexer (or the CR of a CRLF line end) but is not in the set the pre-pass trims from the end of a line (%q): at the end of the last line it reaches the parser as a token in front of EOF and the document is rejected", c, trimSet))
+		}
+	}
+}
